@@ -1,6 +1,7 @@
 """Query helpers shared by the rule modules: atoms/facts, interprocedural
 must-facts by dominance, call-site finders, small AST pattern utilities."""
 import ast
+import re
 from .model import AnalysisError, Unknown, norm, unwrap
 from .cfg import walk_no_nested
 
@@ -92,6 +93,48 @@ def kwarg(call, name, pos=None):
 def is_const(node, value):
     return isinstance(node, ast.Constant) and node.value == value and \
         type(node.value) is type(value)
+
+
+_IN_RE = re.compile(r"('[^']*'|[\w.]+(?:\.get\('[^']*'\)|\['[^']*'\])*) in ([\w.]+(?:\['[^']*'\])*)")
+
+
+def implied_texts(texts):
+    """Facts that follow from the given fact texts whatever the values involved:
+         D.get(K) is not None  =>  K in D            (a key that is absent reads as None)
+         type(D.get(K)) == T   =>  K in D            (T a concrete type name other than NoneType)"""
+    out = set()
+    for t in texts:
+        if ".get(" not in t:
+            continue
+        try:
+            e = ast.parse(t, mode="eval").body
+        except SyntaxError:
+            continue
+        if not (isinstance(e, ast.Compare) and len(e.ops) == 1):
+            continue
+        l, op, r = e.left, e.ops[0], e.comparators[0]
+        g_ = None
+        if isinstance(op, (ast.IsNot, ast.NotEq)) and isinstance(r, ast.Constant) and r.value is None:
+            g_ = l
+        elif isinstance(op, ast.Eq) and isinstance(l, ast.Call) and isinstance(l.func, ast.Name) and l.func.id == "type" and len(l.args) == 1 \
+                and isinstance(r, ast.Name) and r.id in ("str", "int", "list", "dict", "bytes", "bool", "float", "tuple"):
+            g_ = l.args[0]
+        if isinstance(g_, ast.Call) and isinstance(g_.func, ast.Attribute) and g_.func.attr == "get" and not g_.keywords \
+                and (len(g_.args) == 1 or (len(g_.args) == 2 and isinstance(g_.args[1], ast.Constant) and g_.args[1].value is None)):
+            out.add(f"{norm(g_.args[0])} in {norm(g_.func.value)}")
+    # where K in D is known, D.get(K) and D[K] are the same value: give every fact in its subscript form too
+    known = set()
+    for t in set(texts) | out:
+        m = _IN_RE.fullmatch(t)
+        if m:
+            known.add((m.group(1), m.group(2)))
+    for t in list(texts) + list(out):
+        t2 = t
+        for k, d in known:
+            t2 = t2.replace(f"{d}.get({k})", f"{d}[{k}]").replace(f"{d}.get({k}, None)", f"{d}[{k}]")
+        if t2 != t:
+            out.add(t2)
+    return out
 
 
 class Facts:
@@ -192,7 +235,7 @@ class Facts:
             else:
                 for v in exp(f.expr, at):
                     out.add(("" if f.pol else "not ") + v)
-        return out
+        return out | implied_texts(out)
 
     def exit_texts(self, fn, sc, PV, canon=None):
         """Texts of the facts that hold whenever fn returns normally, raw and with local names expanded."""
@@ -222,7 +265,7 @@ class Facts:
             else:
                 for v in exp(f.expr):
                     out.add(("" if f.pol else "not ") + v)
-        return out
+        return out | implied_texts(out)
 
     def completed_calls(self, fn, sc, cnode, include_self=False):
         """Call expressions whose normal completion dominates cnode."""
